@@ -28,6 +28,8 @@ DECIDED = ('the specific ways a streaming scanner becomes split-dependent, each 
            'started.')
 DECIDED_MORE = ('Also: a proper head of the pending CRLFCRLF continuation is cut off before waiting on; a find-based MatchTail tries every candidate and resumes at pos+1; the scanner is fed on every non-raising pass of the part loop.')
 DECIDED = DECIDED + ' ' + DECIDED_MORE
+DECIDED_R6 = ('Round 6: offset-or-minus-one tested with >= 0; dispatch-table entries called with the arguments they take; header end of a completed cut terminator as a linear identity; the saved section method belongs to an object bound in __init__ only.')
+DECIDED = DECIDED + ' ' + DECIDED_R6
 NOT_DECIDED = ('that these are the *only* sources of split dependence: equality of the markup over all divisions of all bodies is '
                'an equivalence of runtime values (e.g. absolute-offset arithmetic of the first section when the opening '
                'delimiter itself is cut is not decided).')
